@@ -9,14 +9,17 @@ impl Gcd for BoxedUint {
 
     /// Compute the greatest common divisor (GCD) of this number and another.
     fn gcd(&self, rhs: &Self) -> Self {
-        let k1 = self.trailing_zeros();
+        // Operands of different precision: work at the larger one (`ct_select` needs equal limb counts).
+        let bits_precision = core::cmp::max(self.bits_precision(), rhs.bits_precision());
+        let (lhs, rhs) = (self.widen(bits_precision), rhs.widen(bits_precision));
+        let k1 = lhs.trailing_zeros();
         let k2 = rhs.trailing_zeros();
 
         // Select the smaller of the two `k` values, making 2^k the common even divisor
         let k = u32::conditional_select(&k1, &k2, u32::ct_lt(&k2, &k1));
 
         // Decompose `self` and `rhs` into `s{1, 2} * 2^k` where either `s1` or `s2` is odd
-        let s1 = self.overflowing_shr(k).0;
+        let s1 = lhs.overflowing_shr(k).0;
         let s2 = rhs.overflowing_shr(k).0;
 
         let f = Self::ct_select(&s1, &s2, !s2.is_odd());
